@@ -190,6 +190,9 @@ struct Explorer {
     n_k: u32,
     pilot: u32,
     group: Group,
+    /// (rule, key) of the open known findings of this property.
+    known: Vec<(String, String)>,
+    known_seen: BTreeMap<(String, String), u64>,
 }
 
 impl Explorer {
@@ -274,10 +277,22 @@ impl engine::WorkSource for Explorer {
         account(&mut self.st, self.prop, case, spec, &out, &h, self.ci, self.k);
         if !viols.is_empty() {
             let mut fa = self.found_all.lock().unwrap();
+            let mut fresh = false;
             for v in viols.into_iter().take(4) {
+                // A violation listed as an open known finding is recorded (a few instances) but
+                // does not end the exploration.
+                if self.known.iter().any(|(r, k)| *r == v.rule && (k.is_empty() || *k == v.key)) {
+                    let n = self.known_seen.entry((v.rule.clone(), v.key.clone())).or_insert(0);
+                    *n += 1;
+                    if *n > 3 {
+                        continue;
+                    }
+                } else {
+                    fresh = true;
+                }
                 fa.push(Found { case: (**case).clone(), spec: spec.clone(), violation: v, case_seed: self.case_seed, decisions: out.sched.decisions.clone() });
             }
-            if self.stop_on_first {
+            if self.stop_on_first && fresh {
                 self.stop.store(true, Ordering::Relaxed);
             }
         }
@@ -332,6 +347,8 @@ pub fn explore_part(
         n_k: 0,
         pilot: 64,
         group: Group::default(),
+        known: crate::report::load_known().findings.into_iter().filter(|f| f.status == "open" && f.property == prop.id).map(|f| (f.rule, f.key)).collect(),
+        known_seen: BTreeMap::new(),
     };
     engine::run_batch(&mut ex, engine::default_body(), engine::MAX_STEPS);
     let mut stats = ex.st;
@@ -381,6 +398,7 @@ pub fn explore(prop: &'static PropSpec, seed: u64, thorough: bool, workers: usiz
             .expect("spawn worker");
         children.push((w, child, false));
     }
+    let known: Vec<(String, String)> = crate::report::load_known().findings.into_iter().filter(|f| f.status == "open" && f.property == prop.id).map(|f| (f.rule, f.key)).collect();
     let grace = Duration::from_secs(45);
     let mut total = Stats::default();
     let mut found: Vec<Found> = Vec::new();
@@ -411,7 +429,8 @@ pub fn explore(prop: &'static PropSpec, seed: u64, thorough: bool, workers: usiz
             let parsed: Option<PartResult> = std::fs::read_to_string(&part_file).ok().and_then(|s| serde_json::from_str(&s).ok());
             match (status.map(|s| s.success()).unwrap_or(false), parsed) {
                 (true, Some(pr)) => {
-                    if !pr.found.is_empty() && stop_on_first {
+                    let fresh = pr.found.iter().any(|f| !known.iter().any(|(r, k)| *r == f.violation.rule && (k.is_empty() || *k == f.violation.key)));
+                    if fresh && stop_on_first {
                         let _ = std::fs::write(&stop_file, b"stop");
                     }
                     total.merge(pr.stats);
